@@ -17,6 +17,13 @@ enabled gas species, none otherwise) and every dimensionless getter is compared 
 
 for scalar and array temperatures; S(P) - S(1 bar) = -ln(P/bar) for an enabled gas and 0 otherwise;
 array = scalar-by-scalar.
+
+Routing family (added after the seeded changes of wave 4): one species with coverage effects of 1-3 adsorbates
+whose names are related (one a suffix / prefix / infix / other-case spelling of another), called with every way
+of giving the coverages: top-level `x` (default of every model), `<name>_kwargs` dictionaries for every subset of
+the attached models in every key order, a dictionary of an absent (related-named) species, an empty dictionary,
+explicit zero / integer coverages.  Oracle: model j is evaluated at its own dictionary's x, else at the top-level
+x, else at 0 - closed forms, nothing from pmutt's routing helper.
 """
 import copy
 import itertools
@@ -31,7 +38,11 @@ from pmc.ref import empirical_ref as ref
 ID = 'C13'
 RULE = ('BFS over histories root-construction x sequence of {dict reload, JSON reload, deepcopy, second species (gas / '
         'surface) built from the same user list}; states de-duplicated on (class, phase, to_dict image, kinds in the '
-        'user list); a state is non-trivial when at least one correction model is attached or expected')
+        'user list); a state is non-trivial when at least one correction model is attached or expected; routing '
+        'family: full product class x phase {s, g} x ordered list of 1-2 (thorough 1-3) coverage models out of 6 '
+        'related adsorbate names x subset of the attached models that get their own <name>_kwargs x at most one '
+        'dictionary of an absent species x every order of the keys x top-level x {absent, 0.35; thorough also int 1, '
+        'and x listed after the dictionaries} x {all dictionaries filled, last one empty}')
 ASSUMPTIONS = [
     'correction models: GasPressureAdj, two PiecewiseCovEffect (coverage of the species itself and of a second species), '
     'one ConstantMode; every ordered list of at most 2 (quick) / 3 (thorough) distinct models, plus None and []',
@@ -40,6 +51,10 @@ ASSUMPTIONS = [
     'the reload clauses assume the JSON plumbing repaired under C11 (fixes/C11/02,05,06,17: registry, Nasa9 key, '
     'SingleNasa9.from_dict, element-wise decoding of misc_models)',
     'temperatures 500 K, [500], [300, 500, 1200], 50 points 250-1900 K; P in {1e-3, 1, 100} bar; coverages in {0, 0.3, 1}',
+    'routing family: adsorbate names O, CO, CO2, co, O(S), CO(S) (suffix, prefix, infix and case relations); one fixed '
+    'coverage per name (float, int 1, explicit 0.0); T = 500 K and [1200, 300, 500]; P = 0.02 bar at the top level; '
+    'documented reading of the conditions: top-level keywords are the default of every attached model, '
+    '<name_j>_kwargs overrides them for the model of species j only, dictionaries of other species are ignored',
 ]
 EXPLANATION = ('explicit-state exploration of the implementation; each history is executed on the real classes and '
                'judged against a reference list of attached models and closed-form contributions')
@@ -79,7 +94,12 @@ T_LOW, T_MID, T_HIGH = 200.0, 1000.0, 6000.0
 PLANNED_TAGS = ['op:construct', 'op:dict', 'op:json', 'op:copy', 'op:second:g', 'op:second:s',
                 'gas:auto-added', 'gas:already-present', 'gas:disabled', 'phase:other', 'phase:None',
                 'models:0', 'models:1', 'models:2', 'models:3', 'cov:two-species', 'T:scalar', 'T:len1',
-                'T:len3', 'T:len50', 'second:after-gas-root', 'list:None', 'list:empty']
+                'T:len3', 'T:len50', 'second:after-gas-root', 'list:None', 'list:empty',
+                'route:suffix-names', 'route:prefix-names', 'route:case-names', 'route:infix-names',
+                'route:top-level-x-only', 'route:top-level-x-and-some-dicts', 'route:dicts-for-all',
+                'route:dicts-for-some', 'route:no-coverage-given', 'route:absent-species-dict', 'route:empty-dict',
+                'route:int-x', 'route:explicit-zero-x', 'route:keys-in-attachment-order', 'route:keys-in-other-order',
+                'route:dict-edited-in-place', 'route:second-species', 'route:gas', 'route:surface']
 
 
 def _maxlist(tier):
@@ -98,7 +118,11 @@ def bounds(tier):
                 len50_evaluated='every state' if tier != 'quick' else 'root states',
                 pressures=PRESSURES, coverages=COVERAGES,
                 conditions='full product P x coverage (50-point arrays: P and coverage varied together)' if tier != 'quick'
-                else 'P and coverage varied together (3)')
+                else 'P and coverage varied together (3)',
+                routing=dict(names=RNAMES, coverage_per_name=RX, attached_lists=len(_r_lists(tier)),
+                             phases=RPHASES, top_level_x=_r_tops(tier), top_level_x_position=_r_toppos(tier),
+                             temperatures=[RT_SCALAR, RT_ARRAY], pressure=RP,
+                             calls_per_class_and_phase=sum(len(_r_calls(l, tier)) for l in _r_lists(tier))))
 
 
 def _is_gas(phase):
@@ -124,6 +148,10 @@ def shards(tier):
                 nparts = (len(lists) + 9) // 10
                 for part in range(nparts):
                     out.append(dict(cls=cls, phase=phase, flag=flag, part=part, nparts=nparts, tier=tier))
+    for cls in CLASSES:
+        for phase in RPHASES:
+            for part in range(R_PARTS):
+                out.append(dict(family='routing', cls=cls, phase=phase, part=part, nparts=R_PARTS, tier=tier))
     return out
 
 
@@ -368,6 +396,8 @@ def _replay(case, ctx, judge=True):
 
 
 def check_case(case, ctx):
+    if case.get('kind') == 'routing':
+        return _routing_case(case, ctx)
     _replay(case, ctx)
 
 
@@ -418,6 +448,8 @@ def _visit(root, ops, tier, ctx):
 
 
 def run_shard(shard, ctx):
+    if shard.get('family') == 'routing':
+        return _run_routing_shard(shard, ctx)
     tier = shard['tier']
     lists = _user_lists(shard['phase'], shard['flag'], tier)[shard['part']::shard['nparts']]
     depth = _depth(tier)
@@ -444,12 +476,269 @@ def run_shard(shard, ctx):
             frontier = nxt
 
 
+# ----------------------------------------------------------------------------- routing family (wave 4)
+# Adsorbate names chosen for their relations: 'O' is a suffix of 'CO', 'O(S)' of 'CO(S)'; 'CO' is a prefix of
+# 'CO2' and of 'CO(S)'; 'O' is inside 'CO2'; 'co' is 'CO' in another case.  Each name has its own piecewise
+# model and its own coverage, so a model evaluated at another species' coverage changes the value.
+RNAMES = ['O', 'CO', 'CO2', 'co', 'O(S)', 'CO(S)']
+RX = {'O': 0.1, 'CO': 0.7, 'CO2': 1, 'co': 0.0, 'O(S)': 0.45, 'CO(S)': 0.25}      # int 1 and explicit 0.0 included
+RX_EDIT = {'O': 0.9, 'CO': 0.2, 'CO2': 0.5, 'co': 0.65, 'O(S)': 0, 'CO(S)': 0.8}
+RPHASES = ['s', 'g']
+RT_SCALAR = 500.0
+RT_ARRAY = [1200.0, 300.0, 500.0]           # unsorted, both sides of the Nasa / Nasa9 break
+RP = 0.02
+R_PARTS = 2
+R_TOP = 0.35
+R_TOP_EDIT = 0.6
+
+
+def _r_model(name, factor=1.0):
+    i = RNAMES.index(name)
+    return dict(intervals=[0.0, 0.15 + 0.05 * i, 0.55 + 0.05 * i],
+                slopes=[factor * s for s in [(-1) ** i * (4.0 + 1.5 * i), 6.0 - 2.0 * i, 3.0 + i]])
+
+
+def _pw_energy(intervals, slopes, x):
+    """Continuous piecewise-linear energy (kcal/mol), f(0) = 0, slope slopes[k] on [intervals[k], intervals[k+1])."""
+    tot = 0.0
+    for k in range(len(intervals)):
+        hi = intervals[k + 1] if k + 1 < len(intervals) else float('inf')
+        tot += slopes[k] * max(0.0, min(hi, float(x)) - intervals[k])
+    return tot
+
+
+def _r_lists(tier):
+    out = []
+    for n in range(1, (2 if tier == 'quick' else 3) + 1):
+        out += [list(p) for p in itertools.permutations(RNAMES, n)]
+    return out
+
+
+def _r_tops(tier):
+    return [None, R_TOP] if tier == 'quick' else [None, R_TOP, 1]
+
+
+def _r_toppos(tier):
+    return ['first'] if tier == 'quick' else ['first', 'last']
+
+
+def _r_calls(models, tier):
+    """Every way of giving the coverages to a species with these attached models:
+    (keys in call order, top-level x, position of the top-level x, last dictionary empty?)."""
+    out = []
+    small = len(models) <= 2                 # lists of 3 models (thorough): no absent dictionary, quick's top-level options
+    absent = [None] + ([n for n in RNAMES if n not in models] if small else [])
+    tops = _r_tops(tier if small else 'quick')
+    poss = _r_toppos(tier if small else 'quick')
+    for r in range(len(models) + 1):
+        for sub in itertools.combinations(models, r):
+            for a in absent:
+                if a is not None and r > 1 and tier == 'quick':
+                    continue                 # quick: an absent species' dictionary next to at most one own dictionary
+                names = list(sub) + ([a] if a is not None else [])
+                for order in itertools.permutations(names):
+                    for top in tops:
+                        for pos in (poss if top is not None and names else ['first']):
+                            out.append(dict(keys=list(order), top=top, pos=pos, empty=False))
+                            # an empty dictionary falls back to the top-level x (quick: only enumerated with one)
+                            if names and (top is not None or tier != 'quick' or len(names) == 1):
+                                out.append(dict(keys=list(order), top=top, pos=pos, empty=True))
+    return out
+
+
+def _r_kwargs(call, xs=RX):
+    """The keyword dictionary of one call (plain data; built afresh by every caller)."""
+    kw = {'P': RP}
+    if call['top'] is not None and call['pos'] == 'first':
+        kw['x'] = call['top']
+    for i, name in enumerate(call['keys']):
+        last = i == len(call['keys']) - 1
+        kw['%s_kwargs' % name] = {} if (call['empty'] and last) else {'x': xs[name]}
+    if call['top'] is not None and call['pos'] == 'last':
+        kw['x'] = call['top']
+    return kw
+
+
+def _r_effective_x(name, kw):
+    """Documented reading: the species' own dictionary overrides the top-level value; default 0."""
+    own = kw.get('%s_kwargs' % name)
+    if isinstance(own, dict) and 'x' in own:
+        return own['x']
+    if 'x' in kw:
+        return kw['x']
+    return 0.0
+
+
+def _r_expected(cls, phase, models, kw, T, factor=1.0):
+    """{quantity: (value, scale)} = bare polynomial + every coverage model at its own coverage (+ -ln P for a gas)."""
+    from pmutt import constants as c
+    b = _bare(cls, T)
+    h, sh = b['HoRT'][0], b['HoRT'][1]
+    s, ss = b['SoR'][0], b['SoR'][1]
+    for name in models:
+        m = _r_model(name, factor)
+        dh = _pw_energy(m['intervals'], m['slopes'], _r_effective_x(name, kw)) / (c.R('kcal/mol/K') * T)
+        h, sh = h + dh, sh + abs(dh)
+    if _is_gas(phase):
+        ds = -math.log(kw['P'])
+        s, ss = s + ds, ss + abs(ds)
+    return {'CpoR': (b['CpoR'][0], b['CpoR'][1] + 1.0), 'HoRT': (h, sh + 1.0), 'SoR': (s, ss + 1.0),
+            'GoRT': (h - s, sh + ss + 1.0)}
+
+
+def _r_build(cls, phase, models, factor=1.0):
+    from pmutt.mixture.cov import PiecewiseCovEffect
+    lst = []
+    for name in models:
+        m = _r_model(name, factor)
+        lst.append(PiecewiseCovEffect(name_i=NAME, name_j=name, intervals=m['intervals'], slopes=m['slopes'],
+                                      name='cov_' + name))
+    return _construct(cls, phase, 'default', lst)
+
+
+def _r_canon(o):
+    if isinstance(o, dict):
+        return {k: _r_canon(v) for k, v in o.items()}
+    if isinstance(o, bool) or o is None or isinstance(o, str):
+        return o
+    return [type(o).__name__, o]
+
+
+def _r_relations(models, keys):
+    names = list(models) + [k for k in keys if k not in models]
+    rel = set()
+    for a in names:
+        for b in names:
+            if a == b:
+                continue
+            if b.endswith(a):
+                rel.add('suffix')
+            elif b.startswith(a):
+                rel.add('prefix')
+            elif a in b:
+                rel.add('infix')
+            elif a.lower() == b.lower():
+                rel.add('case')
+    return rel
+
+
+def _r_sig(case):
+    call, models = case['call'], case['models']
+    own = [k for k in call['keys'] if k in models]
+    return {'cls': case['cls'], 'phase': 'gas' if _is_gas(case['phase']) else 'other', 'family': 'routing',
+            'n': _nlabel(len(models)), 'top': 'none' if call['top'] is None else 'x',
+            'dicts': 'none' if not own else ('all' if len(own) == len(models) else 'some'),
+            'absent': len(own) < len(call['keys'])}
+
+
+def _routing_case(case, ctx, objs=None):
+    """One call (with its repetition and its in-place edit) on a species carrying related-named coverage models.
+    objs: (species, second species) already built by the shard for this root; replay builds them afresh."""
+    cls, phase, models, call = case['cls'], case['phase'], case['models'], case['call']
+    sig0 = _r_sig(case)
+    if objs is None:
+        objs = (_r_build(cls, phase, models), _r_build(cls, phase, list(reversed(models)), factor=2.0))
+    sp, sp2 = objs
+    own = [k for k in call['keys'] if k in models]
+    # ---- tags
+    ctx.tag('route:gas' if _is_gas(phase) else 'route:surface')
+    for r in _r_relations(models, call['keys']):
+        ctx.tag('route:%s-names' % r)
+    if call['top'] is not None:
+        ctx.tag('route:top-level-x-only' if not own else 'route:top-level-x-and-some-dicts')
+    elif not own:
+        ctx.tag('route:no-coverage-given')
+    else:
+        ctx.tag('route:dicts-for-all' if len(own) == len(models) else 'route:dicts-for-some')
+    if len(own) < len(call['keys']):
+        ctx.tag('route:absent-species-dict')
+    if call['empty']:
+        ctx.tag('route:empty-dict')
+    if len(own) > 1:
+        ctx.tag('route:keys-in-attachment-order' if own == [m for m in models if m in own]
+                else 'route:keys-in-other-order')
+    kw = _r_kwargs(call)
+    for v in [kw.get('x')] + [d.get('x') for d in kw.values() if isinstance(d, dict)]:
+        if isinstance(v, int):
+            ctx.tag('route:int-x')
+        if v == 0 and v is not None:
+            ctx.tag('route:explicit-zero-x')
+    before = _r_canon(copy.deepcopy(kw))
+    clause = "value = bare polynomial + every coverage model at its own species' coverage (own dictionary, else top-level x, else 0)"
+
+    def judge(spx, what, T_arg, Tlist, kwx, quants, exp_models, factor, extra):
+        ok = True
+        exp = [_r_expected(cls, phase, exp_models, kwx, T, factor) for T in Tlist]
+        for q in quants:
+            sig = dict(sig0, getter='get_' + q, T='scalar' if np.ndim(T_arg) == 0 else 'array', **extra)
+            v = getattr(spx, 'get_' + q)(T=T_arg, **kwx)
+            ctx.evals()
+            if not ctx.true('N temperatures give N values', np.size(v) == len(Tlist), sig, case,
+                            list(np.shape(v)), len(Tlist)):
+                ok = False
+                continue
+            got = np.ravel(np.array(v, dtype=float))
+            if isinstance(v, np.ndarray) and v.ndim > 0 and v.flags.writeable:
+                v[...] = -777.0                  # results are fresh: scribbling on one may not change the next
+            ok &= ctx.close(what, got, [e[q][0] for e in exp], sig, case, rtol=1e-10, atol=0.0,
+                            scale=np.array([e[q][1] for e in exp]))
+        return ok
+
+    T_arr = np.array(RT_ARRAY)
+    # coverage models contribute to H and G only: Cp and S are judged where at most one dictionary is passed
+    judge(sp, clause, RT_SCALAR, [RT_SCALAR], kw, QUANT if len(call['keys']) <= 1 else ['HoRT', 'GoRT'], models, 1.0, {})
+    judge(sp, clause, T_arr, RT_ARRAY, kw, ['GoRT'] if len(call['keys']) > 1 else ['HoRT', 'GoRT'], models, 1.0, {})
+    ctx.equal('caller keyword dictionaries (per-species dictionaries included) unmodified', _r_canon(kw), before,
+              dict(sig0, getter='get_X'), case)
+    ctx.true('temperature array of the caller unmodified', T_arr.tolist() == RT_ARRAY, dict(sig0, getter='get_X'), case,
+             T_arr.tolist(), RT_ARRAY)
+    # the same call again, then a second species (other slopes, models attached in the other order)
+    judge(sp, 'the same call again gives the same value', RT_SCALAR, [RT_SCALAR], kw, ['HoRT'], models, 1.0,
+          {'call': 'again'})
+    ctx.tag('route:second-species')
+    judge(sp2, clause, RT_SCALAR, [RT_SCALAR], kw, ['HoRT'], models, 2.0, {'species': 'second'})
+    # the caller edits the conditions in place; the next call answers for the new content
+    edited = False
+    for k in call['keys']:
+        if 'x' in kw['%s_kwargs' % k]:
+            kw['%s_kwargs' % k]['x'] = RX_EDIT[k]
+            edited = True
+            break
+    if not edited and 'x' in kw:
+        kw['x'] = R_TOP_EDIT
+        edited = True
+    if edited:
+        ctx.tag('route:dict-edited-in-place')
+        judge(sp, 'conditions edited in place: the next call answers for the new content', T_arr, RT_ARRAY, kw,
+              ['GoRT'], models, 1.0, {'call': 'after-edit'})
+
+
+def _run_routing_shard(shard, ctx):
+    tier, cls, phase = shard['tier'], shard['cls'], shard['phase']
+    for models in _r_lists(tier)[shard['part']::shard['nparts']]:
+        objs = (_r_build(cls, phase, models), _r_build(cls, phase, list(reversed(models)), factor=2.0))
+        ctx.state(core.dumps(['routing', cls, phase, models]))
+        for i, call in enumerate(_r_calls(models, tier)):
+            case = dict(kind='routing', cls=cls, phase=phase, models=models, call=call, tier=tier)
+            ctx.trans()
+            ctx.trace()
+            if len(models) > 1 or call['keys']:
+                ctx.nontrivial(core.dumps(['routing', cls, phase, models, call]))
+            if i == 7:
+                ctx.sample(case, limit=1)
+            ctx.run_case(lambda c_, x_, objs=objs: _routing_case(c_, x_, objs), case, _r_sig(case))
+
+
 LEVEL_TEXT = ('Explicit-state BFS over histories of real Nasa, Nasa9 and Shomate species: construction with every phase, '
               'add_gas_P_adj setting and ordered list of correction models of the alphabet, followed by dictionary '
               'reload, JSON reload, deepcopy and construction of a second species from the same list object; in every '
               'reachable state the attached models, the pressure-adjustment count, all four dimensionless getters against '
               'bare polynomial + closed-form contributions (scalar and array T, three pressures and coverages), the '
-              'S(P)/G(P) law and array = scalar-by-scalar are judged; complete up to the stated depth.')
+              'S(P)/G(P) law and array = scalar-by-scalar are judged; complete up to the stated depth.  Routing '
+              'family: full product of species class x phase x ordered list of coverage models of related-named '
+              'adsorbates x every way of giving the coverages (top-level x, per-species dictionaries for every subset '
+              'in every key order, dictionary of an absent species, empty dictionary), each call repeated, evaluated '
+              'on a second species and after an in-place edit of the conditions.')
 LEVEL_NOTE = ('User lists of <= 2 (quick) / <= 3 (thorough) models; 2 (quick) / 3 (thorough) operations after construction; '
               'explicit GasPressureAdj only where the statement is unambiguous; reload clauses rely on the C11 JSON fixes.')
 TECHNIQUE = 'explicit-state BFS over operation histories on the implementation, reference-model oracle'
